@@ -448,7 +448,7 @@ class HTTP1Connection(httputil.HTTPConnection):
             headers["Transfer-Encoding"] = "chunked"
         if not self.is_client and (
             self._request_start_line.method == "HEAD"
-            or cast(httputil.ResponseStartLine, start_line).code == 304
+            or cast(httputil.ResponseStartLine, start_line).code in (204, 304)
         ):
             self._expected_content_remaining = 0
         elif "Content-Length" in headers:
